@@ -28,6 +28,25 @@ type Workspace struct {
 	cachedCommodities map[string]bool
 	cachedAccounts    map[string]bool
 	index             *WorkspaceIndex
+	overlay           func(path string) (string, bool)
+}
+
+// SetOverlay registers a source of file contents that takes precedence over
+// the disk, e.g. the unsaved buffers of open documents.
+func (w *Workspace) SetOverlay(overlay func(path string) (string, bool)) {
+	w.mu.Lock()
+	defer w.mu.Unlock()
+	w.overlay = overlay
+}
+
+func (w *Workspace) readFileLocked(path string) (string, error) {
+	if w.overlay != nil {
+		if content, ok := w.overlay(path); ok {
+			return content, nil
+		}
+	}
+	data, err := os.ReadFile(path)
+	return string(data), err
 }
 
 func NewWorkspace(rootURI string, loader *include.Loader) *Workspace {
@@ -366,11 +385,11 @@ func (w *Workspace) addMissingReachableLocked(reachable map[string]bool) bool {
 		if w.index.FileIndex(path) != nil {
 			continue
 		}
-		content, err := os.ReadFile(path)
+		content, err := w.readFileLocked(path)
 		if err != nil {
 			continue
 		}
-		fileIndex, journal, _ := BuildFileIndexFromContent(path, string(content))
+		fileIndex, journal, _ := BuildFileIndexFromContent(path, content)
 		w.index.SetFileIndex(path, fileIndex)
 		w.updateIncludeEdgesLocked(path, nil, fileIndex.Includes)
 		w.updateResolvedLocked(path, journal)
